@@ -37,6 +37,8 @@ type (
 	HashedTable struct {
 		Rows map[string][]*any
 		Keys map[string]*Map
+		// per key column: the Go types of its non-NULL values
+		keyTypes map[int]map[string]struct{}
 	}
 )
 
@@ -53,6 +55,7 @@ func NewHashedTable() *HashedTable {
 	out := new(HashedTable)
 	out.Rows = make(map[string][]*any)
 	out.Keys = make(map[string]*map[string]any)
+	out.keyTypes = make(map[int]map[string]struct{})
 
 	return out
 }
@@ -74,7 +77,7 @@ func ToCatalog(rows []any, ident string, identRight string, joinExpr sqlparser.E
 		r := row
 		mapper := make(Map)
 		buffer.Reset()
-		for _, column := range columns {
+		for i, column := range columns {
 			reader, err := ExecReader(row, column)
 			if err != nil {
 				return nil, err
@@ -82,6 +85,12 @@ func ToCatalog(rows []any, ident string, identRight string, joinExpr sqlparser.E
 			// length-prefixed, so that ("a-", "b") and ("a", "-b") are different keys
 			text := fmt.Sprintf("%v", reader)
 			buffer.WriteString(fmt.Sprintf("%d:%s-", len(text), text))
+			if reader != nil {
+				if hashedTable.keyTypes[i] == nil {
+					hashedTable.keyTypes[i] = make(map[string]struct{})
+				}
+				hashedTable.keyTypes[i][fmt.Sprintf("%T", reader)] = struct{}{}
+			}
 			mapper[mappedColumns[column]] = reader
 		}
 		hash, err := ToHash(buffer.Bytes())
@@ -181,10 +190,36 @@ func (j *Join) HashJoin() ([]any, error) {
 	if err != nil {
 		return nil, err
 	}
+	// the hash path takes two keys for equal when their texts are: that is what the comparison says
+	// for values of one Go type, not for an int against a float64 (2147483647 and 2.147483647e+09)
+	// or a number against a string. Keys of mixed types are compared by the nested loop
+	if mixedKeyTypes(l, r) {
+		if !j.joinType.IsParallel() {
+			return j.JoinFunc(l, r)
+		}
+		return j.ParallelJoinFunc(l, r)
+	}
 	if !j.joinType.IsParallel() {
 		return j.HashJoinFunc(l, r)
 	}
 	return j.ParallelHashJoinFunc(l, r)
+}
+
+// mixedKeyTypes tells whether some key column holds values of more than one Go type
+func mixedKeyTypes(l, r *HashedTable) bool {
+	for i, types := range l.keyTypes {
+		types = maps.Clone(types)
+		maps.Copy(types, r.keyTypes[i])
+		if len(types) > 1 {
+			return true
+		}
+	}
+	for i, types := range r.keyTypes {
+		if len(types) > 1 && l.keyTypes[i] == nil {
+			return true
+		}
+	}
+	return false
 }
 
 func (j *Join) HashJoinFunc(l, r *HashedTable) ([]any, error) {
